@@ -656,7 +656,15 @@ bool Session::handle_sequence_reset(const unsigned seqnum, const Message *msg)
 		if (nsn() >= static_cast<int>(_next_receive_seq))
 			_next_receive_seq = nsn() - 1;
 		else if (nsn() < static_cast<int>(_next_receive_seq))
-			throw MsgSequenceTooLow(nsn(), _next_receive_seq);
+		{
+			// a gap fill that was sent again (the same range was requested twice): everything it covers has been received
+			poss_dup_flag pdf(false);
+			gap_fill_flag gff(false);
+			if (seqnum < _next_receive_seq && msg->get(gff) && gff() && msg->Header()->get(pdf) && pdf())
+				--_next_receive_seq;	// process() adds one for every SequenceReset: the expected number stays where it is
+			else
+				throw MsgSequenceTooLow(nsn(), _next_receive_seq);
+		}
 	}
 
 	if (_state == States::st_resend_request_sent)
